@@ -118,6 +118,13 @@ pub fn scenarios(thorough: bool) -> Vec<Scenario> {
       }
     }
   }
+  // quick tier: two parents only in a thin slice (the thorough tier has them in the full product)
+  if !thorough {
+    for mode in modes {
+      out.push(Scenario { mode, n: 2, parents: 2, postage: None, extras: Extras::None, etch: EtchK::None, target: Target::Default, foreign_dest: false });
+      out.push(Scenario { mode, n: 1, parents: 2, postage: if mode == ModeK::SatPoints { None } else { Some(20_000) }, extras: Extras::Meta, etch: EtchK::Premine, target: Target::Default, foreign_dest: false });
+    }
+  }
   // targets, reinscriptions, foreign destinations
   for &n in ns {
     for &p in parents {
